@@ -6,6 +6,8 @@ cp /repo/go.sum go.sum
 GOFLAGS=-mod=mod GOPROXY=off go run ./cmd/factgen /repo /verif/lean/Generated/Facts.lean
 # regenerate the SSA translation of the straight-line part of xmath/num (second tie of C01)
 (cd /verif/gossa && GOFLAGS=-mod=mod GOPROXY=off go run . /repo /verif/lean/Generated/SSA_Num.lean >/dev/null) || echo "setup: ssagen failed (the C01 check will report it)"
+# the same translator over xmath/fixed and xmath/fixed/f64 (second tie of C03)
+(cd /verif/gossa && GOFLAGS=-mod=mod GOPROXY=off go run . /repo /verif/lean/Generated/SSA_F64.lean f64 >/dev/null) || echo "setup: ssagen f64 failed (the C03 check will report it)"
 cd /verif/lean || exit 1
 for f in Props/C[0-9][0-9].lean; do
   [ -f "$f" ] || continue
